@@ -14,7 +14,21 @@ Case kinds (all exhaustively enumerated):
   redef2: full product first objective value (0, 0.0, -0.0, numpy zeros, False, 3, variable, affine, 0*affine,
           piecewise, convex / exp-cone atom) x first method x second method x second value, for ro, dro and the
           direct lp / socp / gcp models.
-  nsobj : non-scalar objective expressions (classes x shapes) x every objective method: same classification.
+  nsobj : non-scalar objective expressions (classes x shapes, incl. element-wise atoms / perspective / maxof / E(maxof)
+          with an array-valued argument) x every objective method: same classification; an expression that is
+          measured to denote ONE value (e.g. maxof(array, y) is flattened into scalar pieces) is vacuous.
+  nsr   : non-scalar objectives as a GRAMMAR: scalar base expression of every expression class (variable, slice,
+          affine, random, abs / square / sumsqr / norms / exp|log / entropy, perspective pexp|plog, piecewise
+          maxof|minof with affine / constant / random / bi-affine pieces, negated and scaled and shifted piecewise,
+          E(piecewise), bi-affine, E(bi-affine), decision rules) in the curvature that is LEGAL for the direction of the
+          method  x  route that makes it non-scalar (+ - * / ndarray of size > 1 on either side, all shapes and
+          dtypes, zeros, list, in-place +=/-=, numpy ufuncs, builtin sum, chains (b+1)+arr, (b+arr)*2, -(b+arr) ...,
+          +/- vector variables / affine / random / bi-affine operands on either side, concat / rstack / vec)  x  every
+          objective method of ro, dro and the direct lp / socp / gcp models.  Must raise at the construction, at the
+          objective call or - at the very latest - in do_math() (counted separately); accepted AND compiled is the
+          violation.  Size of the result is MEASURED on the object (pieces of a piecewise function included);
+          non-trivial = the scalar base handed to the same method of a twin model is accepted and compiles, so the
+          size is the only thing wrong.  Controls: the same routes with a one-element array / scalar stay usable.
   read  : every read-back method on an unsolved model and after an infeasible / unbounded solve through each
           installed interface - also when a successful solve preceded the failed one (stale results): must not
           return a value (a raise, or None with a warning, is loud; a number is the violation).  readok: the same
@@ -34,10 +48,11 @@ TIMEOUT = 60.0
 CHUNK = 8
 FLOOR = 0.5
 RULE = ('x: every entry of the cross-model table x front-end pair; xop: operand class x operand class x operator x order x hand-over (st + every objective method) x front-end pair; redef: ordered pairs of objective methods; redef2: first objective value x method pair x second value (ro, dro, lp, socp, gcp); nsobj: '
-        'expression class/shape x objective method; read: read-back method x (unsolved | {infeasible LP, unbounded LP, infeasible MILP, infeasible SOCP, '
+        'expression class/shape x objective method; nsr: scalar base expression class (curvature legal for the method) x route to size > 1 x objective method x {ro, dro, lp, socp, gcp}; read: read-back method x (unsolved | {infeasible LP, unbounded LP, infeasible MILP, infeasible SOCP, '
         'infeasible robust counterpart, solved-then-infeasible} x interface supporting the class) x {ro, dro, lp, socp}; '
         'par: solver x params x front ends of P and Q; amb: constraint kind; il: every merge of the two build sequences x front-end pair x set kind. '
         'non-trivial = the misuse was actually constructed and the real code raised (at the latest in do_math) '
+        '(nsr: additionally the scalar base itself is accepted by the same method of a twin model and compiles) '
         '(x, redef, nsobj, read, amb: for read the failed state holds by construction of the model); il: both models '
         'solved to optimality solo and interleaved, their optima differ from each other (different data) and both '
         'solutions are non-zero')
@@ -51,6 +66,8 @@ ASSUMPTIONS = [
     'read-back on an unsolved / failed model: raising, or returning None (dual() warns and returns None), fabricates '
     'nothing and passes; returning any value is the violation',
     'size-1 arrays are accepted as scalar objectives by rsome; only size > 1 is demanded to raise',
+    'nsobj / nsr: the number of objective values is measured on the expression object (size / indices.size / largest '
+    'piece of a piecewise function); an expression measured to denote one value is not demanded to raise',
 ]
 TRUSTED = ['CPython', 'NumPy', 'scipy.optimize.linprog (anchor of the ro box / 1-norm instances)',
            'ECOS / HiGHS / OR-tools / Gurobi under the interfaces (only to reach the failed / solved states)']
@@ -102,6 +119,18 @@ def gen_cases(tier, seed):
         for name in T.SCALAR_OK:
             for meth in meths:
                 yield {'k': 'scobj', 'fe': fe, 'expr': name, 'meth': meth}
+    # non-scalar objectives as a grammar: scalar base of every expression class x route to size > 1 x method
+    for fe in FES + T.DIRECT_MODELS:
+        code = fe[0] if fe in FES else 'l'
+        meths = {'r': T.RO_OBJ, 'd': T.DRO_OBJ, 'l': ['min', 'max']}[code]
+        for base, (fes, _) in T.NS_BASES.items():
+            if code not in fes:
+                continue
+            for route in T.NS_ROUTES:
+                if code == 'l' and route in T.NS_DIRECT_SKIP:
+                    continue
+                for meth in meths:
+                    yield {'k': 'nsr', 'fe': fe, 'base': base, 'route': route, 'meth': meth}
     for kind in AMB_KINDS:
         yield {'k': 'amb', 'kind': kind}
     # read-back: full product  failure kind x interface (where the program class is supported) x front end
@@ -166,7 +195,11 @@ def bounds(tier):
     from ..ref import c10c17_misuse as T
     th = tier == 'thorough'
     return {'cross_entries': len(T.CROSS), 'front_end_pairs': 4, 'objective_methods': {'ro': T.RO_OBJ, 'dro': T.DRO_OBJ},
-            'nonscalar_expressions': list(T.NONSCALAR), 'readback_methods': list(T.READBACK),
+            'nonscalar_expressions': list(T.NONSCALAR),
+            'nonscalar_grammar': {'bases': list(T.NS_BASES), 'routes': [r for r in T.NS_ROUTES if r not in T.NS_CONTROL_ROUTES],
+                                  'control_routes': list(T.NS_CONTROL_ROUTES), 'front_ends': FES + T.DIRECT_MODELS,
+                                  'methods': 'all objective methods of the front end'},
+            'readback_methods': list(T.READBACK),
             'interfaces': T.SOLVERS, 'ambiguity_after': AMB_KINDS, 'failure_kinds': {k: v[1] for k, v in T.FAIL_STATES.items()},
             'leak_params': list(T.LEAK_PARAMS), 'first_objective_values': list(T.FIRST_OBJ),
             'interleaving_ops_per_model': 5 if th else 4, 'merges': 252 if th else 70,
@@ -186,7 +219,7 @@ def worker_init():
 
 
 def run_case(case):
-    return {'x': _run_x, 'xop': _run_xop, 'redef': _run_redef, 'redef2': _run_redef2, 'readok': _run_readok, 'par': _run_par, 'nsobj': _run_nsobj, 'scobj': _run_scobj, 'amb': _run_amb,
+    return {'x': _run_x, 'xop': _run_xop, 'redef': _run_redef, 'redef2': _run_redef2, 'readok': _run_readok, 'par': _run_par, 'nsobj': _run_nsobj, 'nsr': _run_nsr, 'scobj': _run_scobj, 'amb': _run_amb,
             'read': _run_read, 'il': _run_il}[case['k']](case)
 
 
@@ -285,7 +318,9 @@ def _run_nsobj(case):
         e = T.NONSCALAR[case['expr']][1](A)
     except Exception as ex:  # noqa
         return {'status': 'unsupported', 'outcome': 'nsobj-expression-not-constructible:' + type(ex).__name__, 'ops': 13}
-    size = getattr(e, 'size', None)
+    size = T.ns_size(e)
+    if size is not None and size <= 1:
+        return {'status': 'vacuous', 'outcome': 'nsobj-expression-denotes-one-value', 'ops': 13}
     try:
         T.call_obj(A, case['meth'], e)
     except Exception as ex:  # noqa
@@ -296,6 +331,80 @@ def _run_nsobj(case):
     return {'status': 'violation', 'ops': 15,
             'sig': 'nsobj|%s|%s|%s|accepted,%s' % (case['fe'], case['expr'], case['meth'], how),
             'detail': 'objective of size %s accepted by %s()' % (size, case['meth'])}
+
+
+_TWIN = {}
+
+
+def _twin_ok(fe, base, meth):
+    """Is the SCALAR base (curvature legal for the direction) accepted by the method and compiled?  (deterministic,
+    so it is measured once per worker process and (front end, base, method))"""
+    key = (fe, base, meth)
+    if key not in _TWIN:
+        T = _W['T']
+        try:
+            A0 = T.ns_objects(fe)
+            T.ns_call_obj(A0, meth, T.NS_BASES[base][1](A0, meth in T.MAXIMISING))
+            A0.finish()
+            _TWIN[key] = True
+        except Exception:  # noqa
+            _TWIN[key] = False
+    return _TWIN[key]
+
+
+def _run_nsr(case):
+    """scalar base (curvature legal for the method) made non-scalar through a route, handed to an objective method.
+    The scalar base itself is first handed to the same method of a twin model: only when that is accepted is the
+    size the one thing wrong with the objective (measured non-triviality)."""
+    T = _W['T']
+    fe, base, route, meth = case['fe'], case['base'], case['route'], case['meth']
+    flip, rfn = T.NS_ROUTES[route]
+    control = route in T.NS_CONTROL_ROUTES
+    cc = (meth in T.MAXIMISING) != flip
+    bfn = T.NS_BASES[base][1]
+    # twin: the scalar expression of the curvature this direction wants
+    twin_ok = _twin_ok(fe, base, meth)
+    A = T.ns_objects(fe)
+    try:
+        b = bfn(A, cc)
+    except Exception as ex:  # noqa
+        return {'status': 'unsupported', 'outcome': 'nsr-base-not-constructible:' + type(ex).__name__, 'ops': 13}
+    try:
+        e = rfn(A, b)
+    except RecursionError:
+        if control:
+            return {'status': 'unsupported', 'outcome': 'nsr-control-route-raises:RecursionError', 'ops': 14}
+        return {'status': 'pass', 'outcome': 'nsr-raises-at-construction:RecursionError', 'ops': 14, 'nontrivial': twin_ok}
+    except Exception as ex:  # noqa
+        if control:
+            return {'status': 'unsupported', 'outcome': 'nsr-control-route-raises:' + type(ex).__name__, 'ops': 14}
+        return {'status': 'pass', 'outcome': 'nsr-raises-at-construction:' + type(ex).__name__, 'ops': 14,
+                'nontrivial': twin_ok}
+    size = T.ns_size(e)
+    if control:
+        if size is not None and size > 1:
+            return {'status': 'vacuous', 'outcome': 'nsr-control-not-scalar', 'ops': 14}
+        try:
+            T.ns_call_obj(A, meth, e)
+        except Exception as ex:  # noqa
+            return {'status': 'unsupported', 'outcome': 'nsr-control-rejected:' + type(ex).__name__, 'ops': 15}
+        return {'status': 'pass', 'outcome': 'nsr-control-accepted(size 1)', 'ops': 15, 'nontrivial': False}
+    if size is not None and size <= 1:
+        return {'status': 'vacuous', 'outcome': 'nsr-route-gave-one-value', 'ops': 14}
+    try:
+        T.ns_call_obj(A, meth, e)
+    except RecursionError:
+        return {'status': 'pass', 'outcome': 'nsr-raises-at-objective:RecursionError', 'ops': 15, 'nontrivial': twin_ok}
+    except Exception as ex:  # noqa
+        return {'status': 'pass', 'outcome': 'nsr-raises-at-objective:' + type(ex).__name__, 'ops': 15,
+                'nontrivial': twin_ok}
+    how = _after_accept(A)
+    if how != 'compiled':
+        return {'status': 'pass', 'outcome': 'late-raise(nsr):' + how.split(':')[1], 'ops': 16, 'nontrivial': twin_ok}
+    return {'status': 'violation', 'ops': 16,
+            'sig': 'nsr|%s|%s|%s|%s|accepted,compiled' % (fe, base, route, meth),
+            'detail': 'objective <%s> made non-scalar through <%s> (size %s, type %s) was accepted by %s() and the '
+                      'model compiles' % (base, route, size, type(e).__name__, meth)}
 
 
 def _run_scobj(case):
